@@ -173,7 +173,9 @@ fn run_session(kit: &Kit, rt: &tokio::runtime::Runtime, case: &Value, n: usize, 
         let serve = a["serve"].as_array().unwrap().iter().map(|v| v.as_u64().unwrap() as usize).collect();
         // the model's prediction is about the cached verifier
         let predicted = if with_cache { a.get("impl").cloned().unwrap_or(json!("none")) } else { json!("none") };
-        plan.push((a["start"].as_u64().unwrap() as usize, serve, false, predicted, "attempt"));
+        // beyond the scripted answers the aggregator is honest (see c03_chain)
+        let honest = a["honest_after"].as_bool().unwrap_or(true);
+        plan.push((a["start"].as_u64().unwrap() as usize, serve, honest, predicted, "attempt"));
     }
     for (k, (start, serve, honest, predicted, role)) in plan.into_iter().enumerate() {
         // the first answer (to the request for the start hash) is the start certificate itself
@@ -214,16 +216,18 @@ fn run_session(kit: &Kit, rt: &tokio::runtime::Runtime, case: &Value, n: usize, 
             }
         }
         // ---- deviation classes of the real history (for known-finding matching only) -------
-        // (a) a certificate was checked against a served predecessor of a later epoch
+        // (a) a certificate passed its own verification (the verifier said "validated") against a
+        //     served predecessor (the answer to the fetch of its previous hash) of a later epoch
         let mut following = false;
         {
             let mut cur: Option<usize> = None;
-            for (_, idx) in &walk {
+            for (asked, idx) in &walk {
                 if *idx == 0 {
                     break;
                 }
                 if let Some(c) = cur {
-                    if *certs[*idx - 1].epoch > *certs[c - 1].epoch {
+                    let cc = &certs[c - 1];
+                    if *asked == cc.previous_hash && validated.contains(&cc.hash) && *certs[*idx - 1].epoch > *cc.epoch {
                         following = true;
                     }
                 }
